@@ -251,11 +251,12 @@ def extract_state(obj, name):
     keys = list(vo)
     content = [[enc(k), encs(list(v))] for k, v in vo.content.items()]
     quant = name in obj.quantitative_features
-    fmt = []
-    if quant:
-        for k in keys:
-            if not isinstance(k, str) and not C.is_nan(k) and math.isfinite(k):
-                fmt.append([enc(k), f"{k:.3e}".strip()])
+    # CPython's f"{x:.{n}e}" is the oracle; the digit-selection RULE of format_quantiles is in the
+    # model (Model/FormatRule.v): tables for n = 3..17 are sent when 3 digits do not separate
+    fin = [k for k in keys if not isinstance(k, str) and not C.is_nan(k) and math.isfinite(k)] if quant else []
+    fmts = [[[enc(k), f"{k:.3e}".strip()] for k in fin]]
+    if len({s for _, s in fmts[0]}) < len({float(k) for k in fin}):
+        fmts = [[[enc(k), f"{k:.{n}e}".strip()] for k in fin] for n in range(3, 18)]
     strform = []
     if not quant:
         for _, vs in vo.content.items():
@@ -266,7 +267,7 @@ def extract_state(obj, name):
             "str_nan": obj.str_nan, "str_default": obj.str_default,
             "dropna": bool(obj.features_dropna[name]), "odt": obj.output_dtype,
             "lpv": [[enc(k), enc(l)] for k, l in obj.labels_per_values[name].items()],
-            "fmt": fmt, "strform": strform}
+            "fmts": fmts, "strform": strform}
 
 
 def benign_value(col):
@@ -363,7 +364,7 @@ def coq_tcase(st, cells, outs, fitted=True):
         nums += numbers_of([l for _, l in lpv])
     if outs_d is not None:
         nums += numbers_of(outs_d)
-    nums += numbers_of([dec(k) for k, _ in st["fmt"]]) + numbers_of([dec(v) for v, _ in st["strform"]])
+    nums += numbers_of([dec(k) for k, _ in st["fmts"][0]]) + numbers_of([dec(v) for v, _ in st["strform"]])
     sc = C.Scale(0).fit([float(x) if not isinstance(x, (int, np.integer)) else int(x) for x in nums
                          if not C.is_nan(x)])
 
@@ -381,7 +382,7 @@ def coq_tcase(st, cells, outs, fitted=True):
         C.clist([C.cpair(v(k), C.clist([v(x) for x in vs])) for k, vs in content]),
         f"(VStr {C.cstr(st['str_nan'] or '')})", f"(VStr {C.cstr(st['str_default'] or '')})",
         C.cbool(st["dropna"]), odt,
-        C.clist([C.cpair(v(dec(k)), C.cstr(s)) for k, s in st["fmt"]]),
+        C.clist([C.clist([C.cpair(v(dec(k)), C.cstr(s)) for k, s in t]) for t in st["fmts"]]),
         C.cZ(1 << sc.s),
         C.clist([C.cpair(v(k), coq_label(l, st["odt"], sc)) for k, l in lpv]),
         C.clist([C.cpair(v(dec(x)), f"(VStr {C.cstr(s)})") for x, s in st["strform"]]),
@@ -434,7 +435,7 @@ def coq_shards_for(cases, outs, verdict_fn, per_shard=12):
             tcs = [coq_tcase(st, *thin_cells(st, r["cells"], r["out"]), fitted=c["cls"] != "Base")
                    for st, r in zip(o["features"], o["runs"])]
             body.append(C.clist(tcs))
-        txt = ("From AC.Model Require Import Base GroupedList Labels Transform CheckC04 CheckC05.\n"
+        txt = ("From AC.Model Require Import Base GroupedList Labels Transform FormatRule CheckC04 CheckC05.\n"
                "Open Scope string_scope.\n"
                "Definition cases : list (list tcase) := [\n  " + ";\n  ".join(body) + "\n].\n"
                f"Eval vm_compute in map (verdicts {verdict_fn}) cases.\n")
@@ -464,7 +465,7 @@ class St:
         self.keys = decs(st["keys"])
         self.content = [[dec(k), decs(vs)] for k, vs in st["content"]]
         self.lpv = [[dec(k), dec(l)] for k, l in st["lpv"]]
-        self.fmt = [[dec(k), s] for k, s in st["fmt"]]
+        self.fmt = [[dec(k), s] for k, s in st["fmts"][0]]
         self.strform = [[dec(v), s] for v, s in st["strform"]]
 
     def values(self):
